@@ -624,7 +624,7 @@ def main():
                 still_there = demo()
             except Exception as e:
                 notes.append(f"known-finding demo failed to run: {e}")
-        if still_there:
+        if still_there or k["text"] in reported_known:
             out_lines.append(f"KNOWN-FINDING: property={pid} {k['text']}")
 
     wall = time.time() - t0
